@@ -230,7 +230,46 @@ def designspace_prefilter_section(ctx):
                              "propagation gives it top and bottom (from its component a) in every master" % got)
 
 
+def colour_reuse_section(ctx):
+    """one ExplodeColorLayerGlyphsFilter OBJECT handed two fonts in a row: the first already carries an explicit colorLayers
+    mapping (nothing to explode: the filter leaves it alone), the second has colour layers to explode.  On the second font the
+    reused object does what a fresh one does (each on its own fresh copy of the font: the filter writes to its source, F4)"""
+    from ufo2ft.util import _GlyphSet
+    from ufo2ft.filters.explodeColorLayerGlyphs import ExplodeColorLayerGlyphsFilter
+    rng = ctx.subrng("colour-reuse")
+    for i in range(ctx.budget(4, 12)):
+        lib = ["ufoLib2", "defcon"][i % 2]
+        order = ["exploded first", "layered first"][(i // 2) % 2]
+        seed = rng.randrange(10 ** 6)
+        import random as _r
+        mk = lambda: make_font(_r.Random(seed), lib, True, False)
+        desc, _f = mk()
+        case = {"filter": "ExplodeColorLayerGlyphs", "font": jsonable(desc), "lib": lib, "sequence": order}
+        ctx.count(); ctx.klass("colour filter object reused: %s" % order); ctx.nontriv(("cre", i, ctx.scale))
+        try:
+            def run(filt, font):
+                gs = _GlyphSet.from_layer(font, copy=True)
+                m = set(filt(font, gs))
+                return sorted(m), snap.glyphset_snapshot(gs)
+            pre = mk()[1]
+            pre.lib["com.github.googlei18n.ufo2ft.colorLayers"] = {"a": [("a", 0)]}
+            reused = ExplodeColorLayerGlyphsFilter()
+            if order == "exploded first":
+                run(reused, pre)
+            else:
+                run(reused, mk()[1]); run(reused, pre)
+            got = run(reused, mk()[1])
+            want = run(ExplodeColorLayerGlyphsFilter(), mk()[1])
+        except Exception as e:
+            ctx.spec_failure(case, "ExplodeColorLayerGlyphsFilter raised %s: %s\n%s" % (type(e).__name__, e, traceback.format_exc()[-1000:]))
+            continue
+        if got != want:
+            ctx.spec_failure(dict(case, reused_reports=got[0], fresh_reports=want[0]),
+                             "a reused ExplodeColorLayerGlyphsFilter object reports %r on the next font, a fresh one %r" % (got[0], want[0]))
+
+
 def explore(ctx):
+    colour_reuse_section(ctx)
     designspace_prefilter_section(ctx)
     after_color_layers_section(ctx)
     from ufo2ft.util import _GlyphSet
